@@ -6,6 +6,7 @@ git -C /repo worktree add --detach $WT HEAD -q || exit 2
 ( cd $WT && git apply $SEED/patch.diff ) || { echo "PATCH DOES NOT APPLY"; git -C /repo worktree remove --force $WT; exit 2; }
 echo "== demo on /repo:"; ( cd /tmp && PYTHONPATH=/repo timeout 300 /venv/bin/python $SEED/demo.py >/tmp/demo_out_$$ 2>&1; echo "exit $?"; tail -2 /tmp/demo_out_$$ )
 echo "== demo on patched tree:"; ( cd /tmp && PYTHONPATH=$WT timeout 300 /venv/bin/python $SEED/demo.py >/tmp/demo_out_$$ 2>&1; echo "exit $?"; tail -3 /tmp/demo_out_$$ | cut -c1-300 )
+echo "== unedited suite on patched tree:"; ( cd $WT && PYTHONPATH=$WT timeout 900 /venv/bin/python -m pytest -q -p no:cacheprovider --timeout=900 2>&1 | tail -1 )
 echo "== check $PID ($TIER) on patched tree:"
 ( cd /verif && VERIF_REPO=$WT timeout 2400 ./check $PID --tier $TIER > /tmp/check_out_$$ 2>&1; echo "exit $?"; grep -c "^VIOLATION" /tmp/check_out_$$; grep "^# $PID clause" /tmp/check_out_$$ | cut -c1-260 | head -4 )
 git -C /repo worktree remove --force $WT
